@@ -18,12 +18,40 @@ def graph_from_presence(dn, directed, presence, ids=None):
     return G, m
 
 
+INT_STYLES = ("plain", "plain", "plain", "suffix", "negative")
+STR_STYLES = ("plain", "plain", "suffix", "digits")
+
+
+def node_ids(rng, n, strings):
+    """id styles: plain; ids whose text is a suffix of another id's text (1/11/21, a/ba/ca); negative ints;
+    digit-only strings (what a reader yields without nodetype)"""
+    style = rng.choice(STR_STYLES if strings else INT_STYLES)
+    if strings:
+        pool = {"plain": ["n%d" % i for i in range(n)],
+                "suffix": ["a", "ba", "ca", "b", "ab", "cab", "c", "bc", "abc", "d"][:n],
+                "digits": ["1", "30", "-3", "7", "07", "11", "2", "21", "100", "5"][:n]}[style]
+    else:
+        pool = {"plain": list(range(n)),
+                "suffix": [1, 11, 21, 2, 12, 22, 3, 13, 111, 4][:n],
+                "negative": [-1, -2, 0, 1, -11, 2, -3, 3, 4, 5][:n]}[style]
+    return style, pool
+
+
+def time_base(rng):
+    """0 mostly; ids crossing a digit-count boundary (9->10, 99->100); nanosecond epochs beyond 2**53"""
+    return rng.choice((0, 0, 0, 0, 7, 96, 2 ** 60))
+
+
 def random_temporal_graph(rng, dn, strings=False, max_nodes=5, max_ids=6, p_loop=0.05, gaps=True):
     directed = rng.random() < 0.5
+    if rng.random() < 0.08:
+        max_nodes, max_ids = max_nodes + 4, max_ids + 3      # a minority of larger, sparser graphs
     n = rng.randint(3, max_nodes)
-    nodes = ["n%d" % i for i in range(n)] if strings else list(range(n))
+    style, nodes = node_ids(rng, n, strings)
+    n = len(nodes)
     T = rng.randint(2, max_ids)
-    times = sorted(rng.sample(range(0, T * 2 if gaps else T), T))
+    base = time_base(rng)
+    times = sorted(base + x for x in rng.sample(range(0, T * 2 if gaps else T), T))
     presence = {}
     npairs = rng.randint(2, min(7, n * (n - 1)))
     for _ in range(npairs):
@@ -57,3 +85,96 @@ def all_small_graphs(directed, shard, nshards, nodes=(0, 1, 2), instants=(0, 1, 
             if not pres:
                 continue
             yield pres
+
+
+def motif_graph(rng, dn, strings=False):
+    """closed walk back to the source, then a snapshot at which the source is idle (it exists only because
+    of an unrelated pair), then a departure of the source; plus a few random extra interactions"""
+    directed = rng.random() < 0.5
+    style, ids = node_ids(rng, 7, strings)
+    u, x, y, z, p, q, w = ids[:7]
+    t0 = time_base(rng) + rng.randint(0, 3)
+    L = rng.choice((3, 3, 4))
+    cyc = [u, x, y, u] if L == 3 else [u, x, y, w, u]
+    presence = {}
+    t = t0
+    for a, b in zip(cyc[:-1], cyc[1:]):
+        presence.setdefault((a, b), set()).add(t)
+        t += 1
+    presence.setdefault((p, q), set()).add(t)       # the idle snapshot
+    if rng.random() < 0.5:
+        presence[(p, q)].add(t + 1)
+        t += 1
+    t += 1
+    presence.setdefault((u, z), set()).add(t)       # late departure of the source
+    for _ in range(rng.randint(0, 3)):
+        a, b = rng.sample(ids[:7], 2)
+        if not directed and (b, a) in presence:
+            a, b = b, a
+        presence.setdefault((a, b), set()).add(t0 + rng.randint(0, t - t0))
+    if not directed:
+        # merge both orientations of an undirected pair under one key
+        merged = {}
+        for (a, b), sset in presence.items():
+            k = (b, a) if (b, a) in merged else (a, b)
+            merged.setdefault(k, set()).update(sset)
+        presence = merged
+    G, m = graph_from_presence(dn, directed, presence)
+    return G, m, list(m.nodes), presence
+
+
+def refill_after_clear(rng, dn, G, m):
+    """second life: the graph is emptied and refilled (unobserved) with as many snapshot ids as before, at other
+    times; returns the new model"""
+    old_ids = m.ids()
+    directed = m.directed
+    nodes = list(m.nodes)
+    G.clear() if rng.random() < 0.6 else G.clear_edges()
+    k = len(old_ids)
+    start = old_ids[0] + rng.choice((0, 1, 2))
+    new_times = sorted(rng.sample(range(start, start + 2 * k + 1), k))
+    if new_times == old_ids:
+        new_times[-1] += 1
+    from ..model import Model
+    m2 = Model(directed, True)
+    for n_ in (nodes if len(G.nodes()) else []):
+        m2.nodes[n_] = {}
+    # a chain over the nodes visiting every new time at least once, so that the id count is exactly k
+    i = 0
+    for t in new_times:
+        a, b = nodes[i % len(nodes)], nodes[(i + 1) % len(nodes)]
+        if a == b:
+            b = nodes[(i + 2) % len(nodes)]
+        G.add_interaction(a, b, t)
+        m2.apply(a, b, t, None)
+        i += 1
+        if rng.random() < 0.4:
+            c = nodes[(i + 1) % len(nodes)]
+            if c != b:
+                G.add_interaction(b, c, t)
+                m2.apply(b, c, t, None)
+    return m2
+
+
+def long_pair_graph(rng, dn, strings=False):
+    """one pair with 9-12 separate runs (timelines long enough for any long-list code path), a few other
+    sparse pairs hanging off its end points.  Directed only: on an undirected graph the library enumerates all
+    back-and-forth walks over such a pair before filtering them (exponential time, not a correctness matter)"""
+    directed = True
+    style, ids = node_ids(rng, 4, strings)
+    a, b, c, d = ids[:4]
+    base = time_base(rng)
+    nruns = rng.randint(9, 12)
+    presence = {(a, b): set()}
+    t = base
+    starts = []
+    for _ in range(nruns):
+        ln = rng.choice((1, 1, 2))
+        presence[(a, b)].update(range(t, t + ln))
+        starts.append(t)
+        t += ln + rng.randint(1, 2)
+    for (x, y) in ((b, c), (c, d), (c, a)):
+        k = rng.randint(1, 2)
+        presence[(x, y)] = set(rng.sample(range(base, t), k))
+    G, m = graph_from_presence(dn, directed, presence)
+    return G, m, list(m.nodes), presence
